@@ -281,6 +281,13 @@ func (f *frame) binop(st *State, x *ssa.BinOp) Val {
 		fn := ex.decls.fun("bitand", []string{SInt, SInt}, SInt)
 		r := app(fn, ai.T, bi.T)
 		st.assume(tImp(tAnd(tLe("0", ai.T), tLe("0", bi.T)), tAnd(tLe("0", r), tLe(r, ai.T), tLe(r, bi.T))))
+		// exact when one operand is a single bit: 2^i & y == (bit i of y) * 2^i, for non-negative y
+		for i := uint(0); i < 16; i++ {
+			pw := numBig(pow2(i))
+			bitOf := func(v T) T { return tEq(tModC(tDivC(v, pow2(i)), pow2(1)), "1") }
+			st.assume(tImp(tAnd(tEq(ai.T, pw), tLe("0", bi.T)), tEq(r, tIte(bitOf(bi.T), pw, "0"))))
+			st.assume(tImp(tAnd(tEq(bi.T, pw), tLe("0", ai.T)), tEq(r, tIte(bitOf(ai.T), pw, "0"))))
+		}
 		ex.note("abstracted: variable & variable (uninterpreted with range axioms) in " + f.key)
 		return VInt{r}
 	case token.OR:
